@@ -3,6 +3,7 @@ package props
 import (
 	"fmt"
 	"os"
+	"path/filepath"
 	"regexp"
 	"strings"
 
@@ -566,16 +567,50 @@ func c19Fidelity(c *core.Ctx, r *rng.R) *core.Result {
 	opts := c19Options(r, mask)
 	g := &mdGen{r: r, gfm: opts.EnableGFM, math: opts.EnableMath, feats: map[string]bool{}, heads: map[string]int{}}
 	src := g.document()
+	if r.Chance(1, 12) {
+		// a paragraph written on one very long physical line (text pasted from a word processor, no hard wraps)
+		w := g.word()
+		filler := strings.Repeat([]string{"zq ", "长行 ", "ab cd "}[r.Intn(3)], []int{3000, 11000, 23000}[r.Intn(3)])
+		g.toks = append(g.toks, mdTok{tok: w, block: "para"})
+		g.seqs = append(g.seqs, mdSeq{block: "para", visible: w + " " + filler, first: w})
+		src += w + " " + strings.TrimRight(filler, " ") + "\n\n"
+		g.use(fmt.Sprintf("physical-line-of-%d-KiB", (len(filler)+len(w)+1)>>10))
+		// and something behind it
+		src += g.inline("para", 3) + "\n"
+	}
 	var d *document.Document
 	var err error
-	if cg := core.Catch(func() { d, err = markdown.NewConverter(opts).ConvertString(src, nil) }); cg != nil {
-		res.Add("fidelity/convert/"+cg.Key(), "ConvertString panicked on generated Markdown: "+cg.Msg, cg.Stack, src)
+	entry := "ConvertString"
+	if r.Chance(1, 4) {
+		entry = "ConvertFile"
+	}
+	if cg := core.Catch(func() {
+		if entry == "ConvertFile" {
+			// the file entry point: the Markdown is read from a file, the document is the package ConvertFile writes
+			in := filepath.Join(c.WorkDir, fmt.Sprintf("fid%d.md", c.Case))
+			out := filepath.Join(c.WorkDir, fmt.Sprintf("fid%d.docx", c.Case))
+			defer os.Remove(in)
+			defer os.Remove(out)
+			if err = os.WriteFile(in, []byte(src), 0644); err != nil {
+				return
+			}
+			o2 := *opts
+			if err = markdown.NewConverter(&o2).ConvertFile(in, out, &o2); err != nil {
+				return
+			}
+			d, err = document.Open(out)
+			return
+		}
+		d, err = markdown.NewConverter(opts).ConvertString(src, nil)
+	}); cg != nil {
+		res.Add("fidelity/convert/"+cg.Key(), entry+" panicked on generated Markdown: "+cg.Msg, cg.Stack, src)
 		return res
 	}
 	if err != nil || d == nil {
-		res.Add("fidelity/convert-error", fmt.Sprintf("conversion of well-formed Markdown failed: %v", err), src)
+		res.Add("fidelity/convert-error", fmt.Sprintf("conversion of well-formed Markdown through %s failed: %v", entry, err), lastStr(src, 2000))
 		return res
 	}
+	res.Count("entry:"+entry, 1)
 	optNote := fmt.Sprintf("options: gfm=%v tables=%v tasks=%v math=%v footnotes=%v toc=%v/%d", opts.EnableGFM, opts.EnableTables, opts.EnableTaskList, opts.EnableMath, opts.EnableFootnotes, opts.GenerateTOC, opts.TOCMaxLevel)
 	got := tokensOf(d)
 	res.Count("documents_converted", 1)
@@ -950,7 +985,7 @@ func init() {
 		ID:    "C19",
 		Level: "exploration",
 		Rule: "two kinds of cases under every combination of {GFM, tables, task lists, math, footnotes, TOC} and TOC level 0-7. Totality (2 of 3 cases): hostile inputs (random runes, random bytes, 100-10000-deep >/*/[ nesting, pathological emphasis runs, wide/long tables, unterminated fences, deeply nested \\frac/\\sqrt, footnote loops, huge task lists, setext/ATX mixes, raw HTML/CDATA, hostile link/image targets, byte-mutated generated Markdown), written to disk before ConvertBytes; no panic, no hang (watchdog + isolated retry), result saves to a well-formed package; LaTeXToOMMLString -> AddMathFormula on the same inputs. " +
-			"Fidelity (1 of 3): Markdown printed from a block/inline tree (headings 1-6, paragraphs with emphasis/strong/code/strike/links/autolinks/bare www addresses/soft breaks and span trees (spans of different kinds nested up to three deep with text before, between and after the inner spans), bullet/ordered/nested lists, task lists, block quotes, fenced code (``` or ~~~, fence indented by 0-3 columns, closing fence indented independently) and indented code whose lines start with blanks and tabs in any mix (expected line = the source line minus the block's own indentation columns, a partly used tab leaving blanks), thematic breaks, tables with alignments, also tables that consist of their header row only) whose words are unique tokens: the document's token sequence equals the tree's, the paragraph carrying an inline sequence shows exactly the visible text Markdown defines for it (white space aside; nothing dropped, nothing invented), heading tokens sit in Heading<n> paragraphs, every token is carried by a run with exactly the italic/bold/strike formats of the spans enclosing it (code: code font), code blocks keep lines and indentation, tables keep dimensions, cell text and column alignment. Non-trivial: >=3 tokens (fidelity) / every totality input; distinct = options + input.",
+			"Fidelity (1 of 3; one case in four through ConvertFile, i.e. Markdown read from a file and the document re-read from the package ConvertFile wrote; one in twelve with a paragraph on one physical line of 9-130 KiB followed by more text): Markdown printed from a block/inline tree (headings 1-6, paragraphs with emphasis/strong/code/strike/links/autolinks/bare www addresses/soft breaks and span trees (spans of different kinds nested up to three deep with text before, between and after the inner spans), bullet/ordered/nested lists, task lists, block quotes, fenced code (``` or ~~~, fence indented by 0-3 columns, closing fence indented independently) and indented code whose lines start with blanks and tabs in any mix (expected line = the source line minus the block's own indentation columns, a partly used tab leaving blanks), thematic breaks, tables with alignments, also tables that consist of their header row only) whose words are unique tokens: the document's token sequence equals the tree's, the paragraph carrying an inline sequence shows exactly the visible text Markdown defines for it (white space aside; nothing dropped, nothing invented), heading tokens sit in Heading<n> paragraphs, every token is carried by a run with exactly the italic/bold/strike formats of the spans enclosing it (code: code font), code blocks keep lines and indentation, tables keep dimensions, cell text and column alignment. Non-trivial: >=3 tokens (fidelity) / every totality input; distinct = options + input.",
 		Cases: func(t string) int { return tierN(t, 4500, 400000) },
 		Run: func(c *core.Ctx) *core.Result {
 			r := caseRng(c)
